@@ -62,8 +62,9 @@ without the end-of-stream marker, in either framing (continuation marker or lega
 EVERY truncation length `k`, the loop over `MessageReader::maybe_next` applied to the first `k`
 bytes of the written stream returns exactly the messages whose frames lie completely within
 those `k` bytes — bit-for-bit the (padded metadata, body) pairs that were written, in order —
-and then reports end-of-data or an error as `specDecode` says: fewer than 4 bytes left → end
-of data, a cut anywhere else inside a frame or inside the end-of-stream marker → error.
+and then reports end-of-data or an error as `specDecode` says: nothing left (or a complete
+end-of-stream marker) → end of data, a cut anywhere inside a frame or inside the end-of-stream
+marker → error.
 
 For the Rust code: `StreamReader` on a stream cut at any byte never hands
 `RecordBatchDecoder` a message that was not written, nor a modified one, nor one out of order.
@@ -88,10 +89,10 @@ theorem stream_truncation_exact (f : Bytes → Option Nat) (o : Opts) (msgs : Li
       rw [parseAll_of_msg hstep, ih hms]
       simp [wire]
     · simp only [hc, if_false] at hstep ⊢
-      by_cases hk4 : k < 4
-      · simp only [hk4, if_true] at hstep ⊢
+      by_cases hk0 : k = 0
+      · simp only [hk0, if_true] at hstep ⊢
         rw [parseAll_of_eos hstep]; simp
-      · simp only [hk4, if_false] at hstep ⊢
+      · simp only [hk0, if_false] at hstep ⊢
         rw [parseAll_of_err hstep]; simp
 
 /-- non-trivial instance: two messages (one with a body), framing with marker, alignment 8 -/
@@ -116,7 +117,7 @@ theorem specDecode_full (frames : List Nat) (e k : Nat) (hk : frames.sum + e ≤
   | nil =>
     simp only [specDecode, List.length_nil]
     simp only [List.sum_nil] at hk
-    by_cases h4 : k < 4
+    by_cases h4 : k = 0
     · simp [h4]
     · have : ¬ k < e := by omega
       simp [h4, this]
@@ -146,11 +147,9 @@ theorem stream_roundtrip (f : Bytes → Option Nat) (o : Opts) (msgs : List Msg)
 /-- **Truncated IPC stream through the push decoder** (`StreamDecoder::decode` on the prefix
 as one buffer, then `finish`).  For every message list, either framing, EOS marker or not, and
 every truncation length `k` of the written stream, the push decoder yields exactly the messages
-`specDecodePush` counts — a frame is complete when it lies within the `k` bytes, except that a
-frame with an empty body needs one more byte to be completed (the `Body` state is processed
-only while the buffer is non-empty) — unmodified and in order; `finish` succeeds only at `k = 0`
-or after a complete end-of-stream marker... or, without a marker, exactly at the end of the last
-frame with a non-empty body; every other cut is "Unexpected End of Stream". -/
+`specDecodePush` counts — a frame is complete when it lies within the `k` bytes (also a frame
+with an empty body) — unmodified and in order; `finish` succeeds exactly at a frame boundary
+or after a complete end-of-stream marker; every other cut is "Unexpected End of Stream". -/
 theorem push_truncation_exact (f : Bytes → Option Nat) (o : Opts) (msgs : List Msg)
     (hwf : ∀ m ∈ msgs, WFMsg o f m) (eos : Bool) (k : Nat)
     (hk : k ≤ (encodeStream o msgs eos).length) :
@@ -171,7 +170,7 @@ theorem push_truncation_exact (f : Bytes → Option Nat) (o : Opts) (msgs : List
     have hstep := pushNext_frame_take f o m hm (encodeStream o ms eos) k hk
     have hlen : (encodeMsg o m ++ encodeStream o ms eos).length = frameLen o m + (encodeStream o ms eos).length := by
       simp [encodeMsg_length]
-    by_cases hc : frameLen o m < k ∨ (frameLen o m = k ∧ m.body.length ≠ 0)
+    by_cases hc : frameLen o m ≤ k
     · simp only [hc, if_true] at hstep ⊢
       rw [pushAll_of_msg hstep, ih hms _ (by omega)]
       simp [wire]
